@@ -49,6 +49,8 @@ PROFILES = {
                 "p_session_loss": 0.3},
     "timing": {"time": True, "ska": [0, 0, 1, 2, 4, 7, 12], "p_no_pingresp": 0.3, "w_poll": 16, "w_recv": 4,
                "p_cancel": 0.03, "calls": 30, "p_delay": 0.5},
+    "arena": {"payload_max": 180, "w_pub0": 6, "w_pub1": 5, "w_pub2": 4, "w_sub": 2, "w_unsub": 1, "w_poll": 6, "p_drop": 0.08,
+              "p_session_loss": 0.03, "rm": [0, 8, 3], "calls": 40, "p_fail_ack": 0.02},
     "keepalive": {"time": True, "ska": [0, 0, 0, 3, 6, 8], "p_no_pingresp": 0.15, "w_poll": 16, "w_recv": 4, "p_cancel": 0.02,
                   "calls": 30, "p_delay": 0.7, "p_fault": 0.0, "w_pub0": 1, "w_pub1": 1, "w_pub2": 0, "w_sub": 0, "w_unsub": 0,
                   "w_disconnect": 0, "p_drop": 0.0, "p_inbound": 0.1, "p_broker_disconnect": 0.0},
@@ -65,6 +67,8 @@ COMMON = [
     ("limits", BASE_CFGS[:4], 40, 400),
     ("invalid", BASE_CFGS[:2], 20, 200),
     ("garbage", BASE_CFGS[:4], 40, 400),
+    ("arena", [BASE_CFGS[0], {"rx": 256, "tx": 320, "client_id": b("ar"), "ka": 0, "sei": 60},
+               {"rx": 256, "tx": 512, "client_id": b("ar2"), "ka": 0, "sei": 60}], 45, 450),
     ("timing", TIME_CFGS, 39, 650),
     ("keepalive", TIME_CFGS, 39, 650),
     ("wrap", [BASE_CFGS[4], BASE_CFGS[0]], 30, 300),
@@ -78,7 +82,11 @@ COVER = {
 }
 SIM = {"quick": [("MC_sim.cfg", 400, 120)], "thorough": [("MC_sim.cfg", 8000, 160)]}
 
+TWINS = {"quick": 150, "thorough": 3000}
+
 SPECIFIC = {
+    "C13": ["twins-cancel"],
+    "C15": ["twins-fragment", "twins-stall"],
     # property -> extra groups (generated by tools/gen_*.py, registered in GENERATORS below)
 }
 
@@ -196,7 +204,16 @@ def gen_sim(tier, seed, outdir, mqv, root):
     json.dump({"tool_errors": errs, "samples": samples, "drift": drift}, open(os.path.join(outdir, "meta.json"), "w"))
 
 
-GENERATORS = {"common": gen_common, "witness": gen_witness, "cover": gen_cover, "sim": gen_sim}
+def gen_twins(kind):
+    def gen(tier, seed, outdir, mqv, root):
+        n = TWINS[tier]
+        msg = run([mqv, "twins", kind, str(seed), str(n), os.path.join(outdir, "twins-%s.trace" % kind)])
+        json.dump({"tool_errors": [], "samples": [{"group": "twins-" + kind, "pairs": n, "harness": msg}]},
+                  open(os.path.join(outdir, "meta.json"), "w"))
+    return gen
+
+
+GENERATORS = {"twins-stall": gen_twins("stall"), "twins-cancel": gen_twins("cancel"), "twins-fragment": gen_twins("fragment"), "common": gen_common, "witness": gen_witness, "cover": gen_cover, "sim": gen_sim}
 
 
 def generate(group, tier, seed, outdir, mqv, root):
